@@ -172,6 +172,9 @@ func genString(tp *core.Tape) string {
 		return ""
 	case 1:
 		n := 200 + tp.Intn(5000)
+		if veryLong {
+			n = 8000 + tp.Intn(40000)
+		}
 		return strings.Repeat(alphabet[tp.Intn(len(alphabet))], n)
 	default:
 		var b strings.Builder
@@ -181,6 +184,10 @@ func genString(tp *core.Tape) string {
 		return b.String()
 	}
 }
+
+// veryLong makes the long strings of genString tens of thousands of characters long (states of
+// several megabytes).
+var veryLong bool
 
 func genStrings(tp *core.Tape) []string {
 	n := tp.Intn(4)
@@ -364,6 +371,14 @@ func run(e *core.Env) {
 	if tp.Chance(1, 10) {
 		n0 = 0
 	}
+	// One run in sixteen: well over a hundred routers whose long values are tens of thousands of
+	// characters - a state file of several megabytes. Nothing in the statement bounds the size
+	// of a state; whatever the router wrote it has to read again.
+	huge := tp.Chance(1, 16)
+	if huge {
+		sizeClass, n0, veryLong = 3, 400+tp.Intn(120), true
+		defer func() { veryLong = false }()
+	}
 	for _, mu := range genMutations(tp, n0, &pool, &domains, e) {
 		mu(s0)
 	}
@@ -435,7 +450,20 @@ func run(e *core.Env) {
 	var points []point
 	for i, op := range journal {
 		if op.Kind == "write" {
-			if op.Len <= 2048 || thorough && op.Len <= 40000 {
+			if op.Len > 4<<20 {
+				e.Probe("state_file_larger_than_4_MiB")
+			}
+			if huge {
+				// every restart parses megabytes: the edges and a small seeded sample
+				for _, o := range []int{0, 1, op.Len / 2, op.Len - 1, op.Len} {
+					if o >= 0 && o <= op.Len {
+						points = append(points, point{i, o})
+					}
+				}
+				for j := 0; j < 8; j++ {
+					points = append(points, point{i, tp.Intn(op.Len + 1)})
+				}
+			} else if op.Len <= 2048 || thorough && op.Len <= 40000 {
 				for off := 0; off <= op.Len; off++ {
 					points = append(points, point{i, off})
 				}
